@@ -123,7 +123,7 @@ def scenario(idx, root, mat, kind, combo, fstate, helper):
             "observed_roots": observed_roots, "stderr_tail": dmn.stderr()[-400:]}
 
 
-def two_endpoints(idx, root, mat, helper, first):
+def two_endpoints(idx, root, mat, helper, first, with_global=False):
     """Two endpoints in ONE daemon: A lists the private root, B lists nothing; both servers present a
     chain of that private CA.  Whatever A's trust made possible must not leak to B (exactly the roots
     of the endpoint itself): B must never receive a request, however long the daemon runs."""
@@ -142,6 +142,9 @@ def two_endpoints(idx, root, mat, helper, first):
         eps.reverse()
         certs.reverse()
     cfg, log = flow.make_config(d, ca_a.base + "/directory", certs, endpoints=eps)
+    if with_global:
+        # all three sources in play: a global list (an unrelated root) next to A's own list
+        cfg["global"]["root_certificates"] = [mat["unrelated_root"]]
     cfg_path = cfggen.write(os.path.join(d, "acmed.toml"), cfg)
     dmn = flow.Daemon(cfg_path)
     # A succeeds at once; B fails, pauses 2 s (hooked build) and retries: watch several retries
@@ -189,7 +192,8 @@ def run(ctx):
         with concurrent.futures.ThreadPoolExecutor(max_workers=12) as ex:
             results = list(ex.map(lambda a: scenario(a[0], root, mat, a[1][0], a[1][1], a[1][2], helper),
                                   enumerate(grid)))
-        two = [two_endpoints(i, root, mat, helper, first) for i, first in enumerate(["A", "B"])]
+        two = [two_endpoints(i, root, mat, helper, first, with_global=g)
+               for i, (first, g) in enumerate([("A", False), ("B", False), ("A", True), ("B", True)])]
         for t in two:
             if not t["a_ok"] or t["b_attempts"] < 2:
                 ctx.broke("harness", "two-endpoint scenario did not exercise both endpoints (A ok=%s, B attempts=%d)"
